@@ -325,7 +325,7 @@ structure OrderedX [LinearOrder α] (o : XOps α) : Prop where
   le_iff : ∀ a b, o.le a b = decide (a ≤ b)
   lt_iff : ∀ a b, o.lt a b = decide (a < b)
 
-/-- the specification of `torchutils.logabsdet` (torchutils.py:59-63, `slogdet` trusted): `log |det M|` -/
+/-- the specification of `torchutils.logabsdet` (torchutils.py:64-68, `slogdet` trusted): `log |det M|` -/
 noncomputable def logabsdetR {n : ℕ} (M : Matrix (Fin n) (Fin n) ℝ) : ℝ := Real.log |M.det|
 
 /-! ## counting in masks -/
